@@ -46,6 +46,7 @@ type Proc struct {
 	killed  bool
 	mu      sync.Mutex
 	Unkillable bool
+	MuteExit   bool
 
 	ExecSeq int64
 	ExitSeq int64 // seq of the "exit" log record (0 while alive)
@@ -73,6 +74,7 @@ type ExecPlan struct {
 	Fail       error     // if set, Exec returns this error
 	Behave     Behaviour // body of the process (default: Puppet{})
 	Unkillable bool      // Kill does not terminate the process
+	MuteExit   bool      // the termination event of this process is never delivered
 	// EarlyExit: the process exits and its exit event is offered on the
 	// events channel before Exec returns (legal for the real supervisor,
 	// whose waiter goroutine starts before Exec returns).
@@ -152,6 +154,7 @@ func (s *FakeSup) Exec(ctx context.Context, req *supvmodel.ExecRequest) error {
 		return plan.Fail
 	}
 	p.Unkillable = plan.Unkillable
+	p.MuteExit = plan.MuteExit
 	p.ExecSeq = s.Log.Add(Event{Src: "sup", Kind: "exec", Op: req.Name, Extra: x})
 
 	s.mu.Lock()
@@ -202,6 +205,11 @@ func (s *FakeSup) Exec(ctx context.Context, req *supvmodel.ExecRequest) error {
 		p.ExitSeq = s.Log.Add(Event{Src: "sup", Kind: "exit", Op: req.Name, Extra: x})
 		p.mu.Unlock()
 		close(p.Done)
+		if plan.MuteExit {
+			// the process is gone (Kill succeeds) but its termination is never reported
+			s.Log.Add(Event{Src: "sup", Kind: "note", Op: "exit-event-withheld " + req.Name})
+			return
+		}
 		// like the local supervisor: termination is visible first, then the
 		// event is offered on the unbuffered channel
 		s.events <- supvmodel.Event{Time: uint64(time.Now().UnixMilli()), Event: ev}
